@@ -1,10 +1,19 @@
-use fjall::Database;
+use fjall::{Database, KeyspaceCreateOptions, KvSeparationOptions};
 fn main() {
     let dir = std::path::PathBuf::from("/dev/shm/vprobe");
     let _ = std::fs::remove_dir_all(&dir);
-    std::fs::create_dir_all(dir.join("keyspaces")).unwrap();
-    std::fs::write(dir.join("0.jnl"), b"").unwrap();
-    std::fs::write(dir.join("lock"), b"").unwrap();
-    let r = Database::builder(&dir).worker_threads_unchecked(0).open();
-    println!("open with stale 0.jnl: {:?}", r.as_ref().map(|_| ()).map_err(|e| format!("{e:?}")));
+    let open = || Database::builder(&dir).worker_threads_unchecked(0).open();
+    {
+        let db = open().unwrap();
+        let a = db.keyspace("a", || KeyspaceCreateOptions::default().with_kv_separation(Some(KvSeparationOptions::default()))).unwrap();
+        println!("a id {}", a.id());
+        db.delete_keyspace(a).unwrap();
+        println!("dirs {:?}", std::fs::read_dir(dir.join("keyspaces")).unwrap().map(|e| e.unwrap().file_name()).collect::<Vec<_>>());
+    }
+    {
+        let db = open().unwrap();
+        let b = db.keyspace("b", KeyspaceCreateOptions::default).unwrap();
+        println!("b id {} kvsep {:?}", b.id(), b.config.kv_separation_opts.is_some());
+    }
+    match open() { Ok(db) => { let b = db.keyspace("b", KeyspaceCreateOptions::default).unwrap(); println!("reopen ok: b id {} kvsep {:?}", b.id(), b.config.kv_separation_opts.is_some()); } Err(e) => println!("reopen failed {e:?}") }
 }
